@@ -23,7 +23,7 @@ RULE = (
     ">=2 steady-state concentrations; distinct by (structure, orders, flags)."
 )
 ASSUMPTIONS = [
-    "central differences with relative step d: tolerance 60*d^2 + 2e-7/d relative to (1 + |coefficient|) for elasticities; for response coefficients the steady-state accuracy (default tolerance 1e-6 of the search) is amplified by 1/d: tolerance 60*d^2 + 3e-6/d",
+    "central differences with relative step d: tolerance 60*d^2 + 2e-7/d relative to (1 + |coefficient|) for elasticities; for response coefficients the integrator's error floor in the two steady states (LSODA rtol 1e-6 of the largest concentration) is amplified by 1/(d*p): tolerance 60*d^2*(1+|c|) + 5e-6*max|x*|/(d*p) unscaled, 5e-6/d normalized (found by `vp check`: an exact 0 coefficient came out as -0.05 at d=1e-4)",
     "only fast-relaxing networks (100 * lambda_min >= 5) are judged for response coefficients, others are counted as skipped",
     "model-untouched is exact equality of get_parameter_values() and get_initial_conditions() snapshots",
 ]
@@ -191,7 +191,14 @@ def examine(case: dict, ctx) -> Outcome:
     if after != before:
         what = "initial-values" if after[1] != before[1] else "parameter-values"
         out.bad(f"response_coefficients:model-modified:{what}:{'parallel' if par else 'sequential'}:{'variables-supplied' if y0 else 'default-state'}", before=before[1], after=after[1])
-    tol = lambda ref: (60 * d * d + 3e-6 / d) * (1.0 + abs(ref))  # noqa: E731
+    # finite-difference truncation + the integrator's error floor in the two steady states (LSODA rtol 1e-6 of
+    # the largest concentration), amplified by 1/(d*p); the normalisation p/x turns that into 1e-6/d
+    xmax = float(np.max(np.abs(xs)))
+
+    def tol(ref, p=None, scale=None):
+        noise = 5e-6 / d if norm else 5e-6 * (scale if scale is not None else xmax) / (d * abs(pvals[p]))
+        return 60 * d * d * (1.0 + abs(ref)) + noise * (1.0 if not norm else 1.0 + abs(ref))
+
     moves2 = False
     for p in scan:
         jp = names.index(p)
@@ -200,13 +207,13 @@ def examine(case: dict, ctx) -> Outcome:
         for i, var in enumerate(vn):
             want = dxdp[i, jp] * (pvals[p] / xs[i] if norm else 1.0)
             got = float(rc.variables.loc[var, p])
-            if not abs(got - want) <= tol(want):
+            if not abs(got - want) <= tol(want, p, xmax):
                 out.bad(f"response_coefficients:concentration:{'normalized' if norm else 'unscaled'}", variable=var, parameter=p, got=got, want=want, displacement=d)
                 return out
         for j, r in enumerate(rn):
             want = dvdp[j, jp] * (pvals[p] / vss[j] if norm else 1.0)
             got = float(rc.fluxes.loc[r, p])
-            if not abs(got - want) <= tol(want):
+            if not abs(got - want) <= tol(want, p, float(np.max(np.abs(vss))) + float(np.linalg.norm(mm.dv_dx(net, xs), 2)) * xmax):
                 out.bad(f"response_coefficients:flux:{'normalized' if norm else 'unscaled'}", reaction=r, parameter=p, got=got, want=want, displacement=d)
                 return out
     # sequential == parallel
